@@ -49,7 +49,7 @@ FLOORS = {
                            "template_route": 4000}},
     "thorough": {"evaluations": 200000, "distinct": 60000,
                  "counters": {"tojson_roundtrips": 12000, "xmlattr_tokenized": 8000,
-                              "xmlattr_rejected_bad_key": 4000, "xmlattr_names_with_markup_checked": 1000,
+                              "xmlattr_rejected_bad_key": 4000, "xmlattr_names_with_markup_checked": 4000,
                               "urlize_anchors_parsed": 20000,
                               "escape_compared": 12000, "msubj_arg_arrived_escaped": 20000,
                               "template_route": 60000}},
